@@ -27,6 +27,7 @@ import (
 	"reflect"
 	"sort"
 	"strings"
+	"sync"
 	"testing/iotest"
 	"time"
 
@@ -67,7 +68,7 @@ import (
 	_ "github.com/segmentio/kafka-go/protocol/offsetdelete"
 	_ "github.com/segmentio/kafka-go/protocol/offsetfetch"
 	_ "github.com/segmentio/kafka-go/protocol/produce"
-	_ "github.com/segmentio/kafka-go/protocol/saslauthenticate"
+	"github.com/segmentio/kafka-go/protocol/saslauthenticate"
 	_ "github.com/segmentio/kafka-go/protocol/saslhandshake"
 	_ "github.com/segmentio/kafka-go/protocol/syncgroup"
 	_ "github.com/segmentio/kafka-go/protocol/txnoffsetcommit"
@@ -234,6 +235,12 @@ var nextBody = func() []byte {
 }()
 
 func connCase(va variant, k int) (impl string, dur time.Duration) {
+	return connCaseD(va, k, false, 5*time.Second, 6*time.Second)
+}
+
+// connCaseD: stall = after k bytes the broker goes silent instead of dropping the connection; only the Conn's
+// deadline ends the wait.
+func connCaseD(va variant, k int, stall bool, deadline, watchdog time.Duration) (impl string, dur time.Duration) {
 	frameLen := 8 + len(va.body)
 	t0 := time.Now()
 	done := make(chan string, 1)
@@ -250,12 +257,12 @@ func connCase(va variant, k int) (impl string, dur time.Duration) {
 		c, br := connfake.Start(topic, connfake.VersionTable(map[int16]int16{va.op.Key: va.v}))
 		defer br.Stop()
 		defer c.Close()
-		c.SetDeadline(time.Now().Add(5 * time.Second))
+		c.SetDeadline(time.Now().Add(deadline))
 		cut := k
 		if k >= frameLen {
 			cut = -1
 		}
-		br.Push(va.op.Key, connfake.Resp{Body: va.body, Cut: cut})
+		br.Push(va.op.Key, connfake.Resp{Body: va.body, Cut: cut, Stall: stall})
 		// the follow-up list-offsets answer (only reachable when the connection survived)
 		br.Push(2, connfake.Resp{Body: nextBody, Cut: -1})
 		_, err := va.op.Call(c, &sh)
@@ -270,10 +277,56 @@ func connCase(va variant, k int) (impl string, dur time.Duration) {
 	}()
 	select {
 	case impl = <-done:
-	case <-time.After(6 * time.Second):
+	case <-time.After(watchdog):
 		impl = "hang - -"
 	}
 	return impl, time.Since(t0)
+}
+
+// stalled: the same sweep with a broker that goes silent after k bytes (no FIN): every operation must come back with an
+// error when its deadline (300 ms here) expires — never later, never with data — and the Conn must not be reused.  The
+// cases wait for their deadline: run 24 at a time.
+func stalled(out *bufio.Writer, r *rand.Rand, thorough bool) (n, late int) {
+	type job struct {
+		va   variant
+		k    int
+		impl string
+		d    time.Duration
+	}
+	var jobs []*job
+	for _, va := range connVariants(r, thorough) {
+		fl := 8 + len(va.body)
+		ks := []int{0, 3, 4, 8, 8 + r.Intn(len(va.body)), fl - 1}
+		if !thorough {
+			ks = []int{ks[r.Intn(4)], ks[4+r.Intn(2)]}
+		}
+		for _, k := range ks {
+			if k >= 0 && k < fl {
+				jobs = append(jobs, &job{va: va, k: k})
+			}
+		}
+	}
+	sem := make(chan struct{}, 24)
+	var wg sync.WaitGroup
+	for _, j := range jobs {
+		wg.Add(1)
+		sem <- struct{}{}
+		go func(j *job) {
+			defer wg.Done()
+			defer func() { <-sem }()
+			j.impl, j.d = connCaseD(j.va, j.k, true, 300*time.Millisecond, 4*time.Second)
+		}(j)
+	}
+	wg.Wait()
+	for _, j := range jobs {
+		if j.d > 2*time.Second && !strings.HasPrefix(j.impl, "hang") {
+			j.impl = "late " + strings.SplitN(j.impl, " ", 2)[1] // came back, but long after the deadline
+			late++
+		}
+		fmt.Fprintf(out, "c17s %s %s:%d:%d:%d %s %d %s\t%s\n", gen.Hex([]byte(topic)), j.va.op.Name, j.va.v, j.va.sh.Offset, j.va.sh.HWM, gen.Hex(j.va.body), j.k, gen.Hex(nextBody), j.impl)
+		n++
+	}
+	return
 }
 
 // ---------------------------------------------------------------------------------------------- un-framed sasl token
@@ -317,6 +370,49 @@ func rawSasl(out *bufio.Writer, r *rand.Rand, thorough bool) (n int) {
 			}
 			go func() { c.Close(); br.Stop() }()
 			fmt.Fprintf(out, "c17raw %s %d %s\t%s %s\n", gen.Hex(w.B), k, gen.Hex(nextBody), res, next)
+			n++
+		}
+	}
+	return
+}
+
+// rawSaslTransport: the same un-framed token exchange on the Transport path (protocol/saslauthenticate RawExchange, used
+// by protocol.Conn.RoundTrip after a v0 handshake): the answer [int32 len][bytes] cut after k bytes.
+//
+//	c17rawt <answer hex> <k>\t<ok n|err|panic>
+func rawSaslTransport(out *bufio.Writer, r *rand.Rand) (n int) {
+	for _, tokLen := range []int{0, 1, 9, 40, 300} {
+		tok := gen.Bytes(r, tokLen)
+		w := &connfake.W{}
+		w.I32(int32(tokLen))
+		w.Raw(tok)
+		ks := cuts(r, len(w.B), true, 0)
+		for _, k := range ks {
+			if k > len(w.B) {
+				continue
+			}
+			res := "err"
+			func() {
+				defer func() {
+					if p := recover(); p != nil {
+						res = "panic"
+					}
+				}()
+				rw := struct {
+					io.Reader
+					io.Writer
+				}{bytes.NewReader(w.B[:k]), io.Discard}
+				msg, err := (&saslauthenticate.Request{AuthBytes: []byte("client-token")}).RawExchange(rw)
+				if err == nil {
+					resp, _ := msg.(*saslauthenticate.Response)
+					if resp == nil || !bytes.Equal(resp.AuthBytes, tok) {
+						res = "fake"
+					} else {
+						res = fmt.Sprintf("ok %d", len(resp.AuthBytes))
+					}
+				}
+			}()
+			fmt.Fprintf(out, "c17rawt %s %d\t%s\n", gen.Hex(w.B), k, res)
 			n++
 		}
 	}
@@ -517,6 +613,7 @@ func main() {
 			nconn++
 		}
 	}
+	nstall, nlate := stalled(out, r, thorough)
 	apis := protocol.VerifApis()
 	skipped := 0
 	for _, a := range apis {
@@ -554,6 +651,8 @@ func main() {
 	t0 := time.Now()
 	lap := func() string { d := time.Since(t0).Round(time.Millisecond); t0 = time.Now(); return d.String() }
 	nraw := rawSasl(out, r, thorough)
+	nraw += rawSaslTransport(out, r)
+	fmt.Fprintf(os.Stderr, "c17 driver: %d stalled-broker cases (%d back long after the deadline)\n", nstall, nlate)
 	fmt.Fprintf(os.Stderr, "c17 driver: %d un-framed sasl token cases\n", nraw)
 	n2, bad2 := twoCallers(out, r, thorough)
 	fmt.Fprintf(os.Stderr, "c17 driver: %d two-caller cases (%d with a hung caller) in %s\n", n2, bad2, lap())
@@ -563,6 +662,8 @@ func main() {
 	fmt.Fprintf(os.Stderr, "c17 driver: %d split/merge cases on a three-broker cluster in %s\n", nmb, lap())
 	ntp, tslow := transportPath(out, r, thorough)
 	fmt.Fprintf(os.Stderr, "c17 driver: %d transport/writer end-to-end cases (slowest %v) in %s\n", ntp, tslow.Round(time.Millisecond), lap())
+	nts := transportStall(out, r, thorough)
+	fmt.Fprintf(os.Stderr, "c17 driver: %d transport cases against a stalled broker in %s\n", nts, lap())
 	out.Flush()
 	fmt.Fprintf(os.Stderr, "c17 driver: %d conn cases (%d slower than 2s, worst %v), %d ReadResponse cases over %d apis (%d api versions skipped)\n",
 		nconn, slow, worst.Round(time.Millisecond), nrr, len(apis), skipped)
